@@ -70,6 +70,20 @@ CLAIMS = {
         ),
         note=NOTE_COMMON,
     ),
+    "C14": dict(
+        technique="effect/ownership summaries + R-CROSS guard dominance per reaching definition + CFG rejection guard + cycle-loop lint (static analysis, ast)",
+        ref="DESIGN.md 3 (C14)",
+        text=(
+            "Decides four structural clauses of C14: the seven builders have no effect on their arguments (every in-place "
+            "move acts on a deep copy or a fresh Point -- interprocedural effect summaries); the circle frame's normalised "
+            "cross products are guarded against parallel AND anti-parallel operands for each reaching definition of the "
+            "base axis, so axis directions along or opposite to a coordinate axis cannot raise; n < 3 is rejected on every "
+            "path with the right threshold; every ring/cap/side loop ranges over the full index range with a wrap-around "
+            "successor. NOT decided: vertex/edge/face counts, vertices on the specified surface at equal steps, closed-form "
+            "area and volume (numeric)."
+        ),
+        note=NOTE_COMMON,
+    ),
     "C15": dict(
         technique="CFG must-pass-through of rejection guards + def-use + type-set abstract evaluation on unsupported operand types (static analysis, ast)",
         ref="DESIGN.md 3 (C15)",
@@ -100,6 +114,22 @@ CLAIMS = {
             "hashes equal, 4*eps compares unequal)."
         ),
         note=NOTE_COMMON + "An imported name is bound to the value at import time (Python scoping), a call is a live read.",
+    ),
+    "C20": dict(
+        technique="interprocedural effect / ownership (alias) summaries over the whole call graph, callees resolved by type-set inference (static analysis, ast)",
+        ref="DESIGN.md 3 (C20)",
+        text=(
+            "Decides C20's structural content for all operands and histories: every function other than the declared "
+            "in-place mutators (7 move, 3 __setitem__, constructors on their own object, solve/gaussian_elimination on "
+            "their matrix, the configuration setters) writes no object reachable from a parameter, self or module state, "
+            "hence intersection, in, distance, angle, parallel, orthogonal, ==, hash, repr, length, area, volume and all "
+            "their helpers are pure; the mutators write only their receiver; no query writes module/class state or reads "
+            "mutable globals other than tolerance and logger (history independence); the constructors of Segment, "
+            "HalfLine, ConvexPolygon, ConvexPolyhedron capture nothing by reference and Line built from Points stores "
+            "fresh vectors; no copy hooks, __slots__ or identity-based eq/hash, so the default deep copy is independent "
+            "and equal. Outside: floating-point values of the snapshots."
+        ),
+        note=NOTE_COMMON + "Alias abstraction (S = what the object is, E = what it reaches) is a may-analysis: sound for 'no effect'.",
     ),
 }
 
